@@ -240,3 +240,8 @@ from .ctx import guard_methods as _gm  # noqa: E402
 
 for _cls, _lab in ((ColSeries, "pandas.Series"), (Frame, "pandas.DataFrame"), (FlagSeries, "pandas.Series")):
     _gm(_cls, _lab)
+
+from .npmodel import _fill_missing_operators as _fmo  # noqa: E402
+
+for _cls in (ColSeries, FlagSeries):
+    _fmo(_cls, "pandas." + _cls.__name__)
